@@ -53,6 +53,7 @@ use iceoryx2_cal::{
 use iceoryx2_cal::{event::Event, named_concept::NamedConceptBuilder};
 use iceoryx2_log::{debug, fail, warn};
 
+use crate::node::SharedNode;
 use crate::service::SharedServiceState;
 use crate::service::resource::NoResource;
 use crate::{
@@ -325,6 +326,9 @@ pub struct Notifier<Service: service::Service> {
     // Otherwise the process might crash during cleanup, has already removed the tag but other resources
     // are still existing. This would make a cleanup from another process impossible.
     port_tag: Service::StaticStorage,
+    // Keeps the node alive until the port tag is removed. If the port is the last owner of the
+    // node, the node could otherwise not remove its directory since it still contains the tag.
+    _shared_node: SharedNode<Service>,
 }
 
 unsafe impl<Service: service::Service> Send for Notifier<Service> where
@@ -348,6 +352,7 @@ impl<Service: service::Service> Abandonable for Notifier<Service> {
         unsafe {
             Service::StaticStorage::abandon_in_place(NonNull::from_mut(&mut this.port_tag));
         }
+        unsafe { SharedNode::abandon_in_place(NonNull::from_mut(&mut this._shared_node)) };
     }
 }
 
@@ -429,6 +434,7 @@ impl<Service: service::Service> Notifier<Service> {
                         "{msg} since the port tag, that is required for cleanup, could not be created. [{e:?}]");
             }
         };
+        let shared_node = service.shared_node().clone();
 
         let listener_list = &service.dynamic_storage().get().event().listeners;
 
@@ -475,6 +481,7 @@ impl<Service: service::Service> Notifier<Service> {
 
         Ok(Self {
             port_tag,
+            _shared_node: shared_node,
             listener_connections,
             default_event_id: config.default_event_id,
             event_id_max_value: static_config.event_id_max_value,
